@@ -5627,12 +5627,20 @@ write_function_instance(ostream &out, FunctionRemap *remap,
             // The default string constructor yields an empty string.
             indent(out, indent_level) << "const char *" << param_name << "_str = \"\";\n";
             indent(out, indent_level) << "Py_ssize_t " << param_name << "_len = 0;\n";
-          } else {
-            // We only get here for string literals, so this should be fine
+          } else if (expr_type == CPPExpression::T_string) {
+            // A string literal: we know its length.
             indent(out, indent_level) << "const char *" << param_name << "_str"
                                       << default_expr << ";\n";
             indent(out, indent_level) << "Py_ssize_t " << param_name << "_len = "
                                       << default_value->_str.size() << ";\n";
+          } else {
+            // Any other expression a string can be initialized with.
+            indent(out, indent_level) << "std::string " << param_name << "_default"
+                                      << default_expr << ";\n";
+            indent(out, indent_level) << "const char *" << param_name << "_str = "
+                                      << param_name << "_default.data();\n";
+            indent(out, indent_level) << "Py_ssize_t " << param_name << "_len = (Py_ssize_t)"
+                                      << param_name << "_default.length();\n";
           }
         } else {
           indent(out, indent_level) << "const char *" << param_name << "_str = nullptr;\n";
